@@ -353,10 +353,13 @@ def slurp(path):
 
 
 def build(case_rows, voff=0, ioff=0):
-    """Row dicts in the given order; the numeric columns cycle through the value alphabets."""
+    """Row dicts in the given order; the numeric columns cycle through the value alphabets.  A row that repeats an earlier
+    row (same chromosome, start, end, label) also repeats its numbers: a true duplicate row."""
     nf, ni = len(FLOATS), len(INTS)
     rows = []
+    first_seen = {}
     for i, (c, s, e, g) in enumerate(case_rows):
+        i = first_seen.setdefault((c, s, e, g), i)
         rows.append(
             {
                 "chromosome": c,
